@@ -188,7 +188,8 @@ def gen_config(rng, sp, profile):
         if rng.random() < 0.5:
             put("ss", rng.choice([1, 2, 3, 4]), "--sample-size", "DIVAN_SAMPLE_SIZE", "sample_size")
         if rng.random() < 0.4:
-            th = rng.choice([[1], [2], [1, 2], [0], [3, 1, 3], [2, 4]])
+            P = TG.PARALLELISM
+            th = rng.choice([[1], [2], [1, 2], [0], [3, 1, 3], [2, 4], [0, P], [P, 2, 0], [0, 0, 1]])
             put("th", th, "--threads", "DIVAN_THREADS", "threads", render=lambda v: ",".join(map(str, v)))
         for k in range(4):
             if rng.random() < 0.2:
